@@ -99,6 +99,8 @@ def _vkey(rec, variant=None, exp=None):
     if k == "rk":
         if rec.get("err"):
             return "routing-key-%s-error" % rec["via"]
+        if 0 in rec["idx"]:
+            return "routing-key-%s-partially-bound-key" % rec["via"]
         return "routing-key-%s-%dcomp" % (rec["via"], len(rec["idx"]))
     if k == "cmp":
         return "%s-parse-order" % rec["p"]
@@ -218,7 +220,7 @@ def run(ctx):
     jobs = [("MC_Token_keys.cfg", dict(VF_SHARD=i, VF_NSHARD=nproc, VF_STRIDE=stride, VF_SEED=ctx.seed), "gen_keys_%d" % i)
             for i in range(nproc)]
     jobs += [("MC_Token_rk.cfg", {}, "gen_rk"), ("MC_Token_cmp.cfg", {}, "gen_cmp"), ("MC_Token_special.cfg", {}, "gen_special"),
-             ("MC_Token_seq.cfg", {}, "gen_seq")]
+             ("MC_Token_seq.cfg", {}, "gen_seq"), ("MC_Token_rkpartial.cfg", {}, "gen_rkpartial")]
     # the first TLC run creates the scratch copy of spec/ (not safe to do concurrently)
     cases, r0 = _gen(ctx, "MC_Token_ord.cfg", {}, "gen_ord")
     gen_states = r0.distinct
